@@ -9,6 +9,17 @@
 // @oracle where the text is cut must not matter: the two runs perform the same tidy steps (bit mask of the 27 tidy_*/update_*/reset routines invoked and the error count), the only permitted difference being one extra tidy_punch in the forced run, and that only when this simulation read nothing tidy_punch resolves names against (no master-species, species, phases or database keyword) - re-resolving an unchanged list against an unchanged database is idempotent. Hence whenever this simulation changed the database tables or the selected-output definitions, tidy_punch runs in both
 // @stubs every tidy_* / update_* routine called from tidy_model, compute_gfw, reset_last_model, pitzer_tidy, sit_tidy (each records its bit); error_msg (counted); element_store (fixed element)
 // @outside what each tidy routine does; idempotence of tidy_punch itself; keywords that change species tables without a keyword count (none known)
+// @id C08.every_block_is_validated
+// @also C04
+// @engine B
+// @entry vfh_C08_blocks_validated
+// @shared_state_watch
+// @tier Q
+// @reach tidy.compared
+// @funcs Phreeqc::tidy_model
+// @bounds one simulation that contains exactly one data block out of 21 kinds (species and master-species blocks, PHASES, NAMED_EXPRESSIONS, ISOTOPES, ISOTOPE_RATIOS, ISOTOPE_ALPHAS, CALCULATE_VALUES, PITZER, SIT, the reactant blocks, INVERSE_MODELING, SOLUTION), as first or later simulation (case split); the real tidy_model with every tidy routine replaced by a recorder
+// @oracle bad input is reported, not used: the routine that checks a block (tidy_species for the species blocks, tidy_phases, tidy_logk, tidy_master_isotope, tidy_isotope_ratios / tidy_isotope_alphas - also when only the CALCULATE_VALUES they refer to changed -, pitzer_tidy, sit_tidy, the reactant tidies, tidy_inverse, tidy_isotopes) runs in the simulation that reads the block, whatever else the simulation contains; an unchecked block would be used by the next calculation (for ISOTOPE_ALPHAS: a null pointer)
+// @stubs as C04.tidy_cut_independent
 #include "Phreeqc.h"
 #include "cxxKinetics.h"
 #include "vf.h"
@@ -65,4 +76,27 @@ extern "C" void vfh_C04_tidy_cut(void)
 		!(names_changed || punch_changed) || ((mask[0] >> PUNCH_BIT) & 1u) == 1u);
 	vf_check("tidy.forced_run_resolves_punch", ((mask[1] >> PUNCH_BIT) & 1u) == 1u);
 	vf_check("tidy.only_extra_punch_in_forced_run", diff == 0 || ((mask[1] >> PUNCH_BIT) & 1u) == 1u);
+}
+
+/* every data block is validated by its tidy routine in the simulation that reads it */
+extern "C" void vfh_C08_blocks_validated(void)
+{
+	struct Row { int key; int step; int needs_model; };      /* step numbers: harness/common/tidy_model_stubs.inc */
+	static const Row T[] = {
+		{Keywords::KEY_SOLUTION_SPECIES, 1, 0}, {Keywords::KEY_SOLUTION_MASTER_SPECIES, 1, 0}, {Keywords::KEY_EXCHANGE_SPECIES, 1, 0},
+		{Keywords::KEY_EXCHANGE_MASTER_SPECIES, 1, 0}, {Keywords::KEY_SURFACE_SPECIES, 1, 0}, {Keywords::KEY_SURFACE_MASTER_SPECIES, 1, 0},
+		{Keywords::KEY_PHASES, 2, 0}, {Keywords::KEY_NAMED_EXPRESSIONS, 0, 0}, {Keywords::KEY_ISOTOPES, 3, 0},
+		{Keywords::KEY_ISOTOPE_RATIOS, 16, 0}, {Keywords::KEY_ISOTOPE_ALPHAS, 17, 0}, {Keywords::KEY_CALCULATE_VALUES, 16, 0}, {Keywords::KEY_CALCULATE_VALUES, 17, 0},
+		{Keywords::KEY_PITZER, 18, 1}, {Keywords::KEY_SIT, 19, 2},
+		{Keywords::KEY_EQUILIBRIUM_PHASES, 8, 0}, {Keywords::KEY_SOLID_SOLUTIONS, 9, 0}, {Keywords::KEY_EXCHANGE, 10, 0}, {Keywords::KEY_GAS_PHASE, 7, 0},
+		{Keywords::KEY_INVERSE_MODELING, 6, 0}, {Keywords::KEY_SOLUTION, 15, 0},
+	};
+	const int n = (int) (sizeof T / sizeof T[0]);
+	int r = (int) vf_int("block", 0, n - 1), sim = (int) vf_int("simulation", 0, 1);
+	Phreeqc *p = mk(sim, T[r].needs_model == 1, T[r].needs_model == 2);
+	p->keycount[T[r].key] = 1;
+	g_mask = 0; g_errs = 0; g_n = 0;
+	p->tidy_model();
+	vf_reach("tidy.compared");
+	vf_check("tidy.block_validated_in_the_simulation_that_reads_it", ((g_mask >> T[r].step) & 1u) == 1u);
 }
